@@ -268,6 +268,18 @@ def calls(path: Path, name: Optional[str] = None, into_loops: bool = True, pred:
     return out
 
 
+def deferred_calls(path: Path, name: Optional[str] = None) -> List[Tuple[Event, Event]]:
+    """calls that sit inside a lambda which is stored instead of applied: (the note event of the
+    lambda, the call).  They are not part of the path's own event stream."""
+    out = []
+    for e in path.walk_events(True):
+        if e.kind == "note" and e.data.get("what") == "deferred":
+            for c in e.data["events"]:
+                if c.kind == "call" and (name is None or c.name == name):
+                    out.append((e, c))
+    return out
+
+
 def stores(path: Path, attr: Optional[str] = None, into_loops: bool = True) -> List[Event]:
     out = []
     for e in path.walk_events(into_loops):
